@@ -445,8 +445,10 @@ PROPS["C04"] = {
         "crash model of the property: process death with the OS surviving, every write / set_len call atomic and applied in program order; flush is a no-op",
         "one log file: after a crash behind any prefix of its file mutations the log reopens and shows the state of the last acknowledged operation or of the operation in flight",
         "creation of a new log file (s04_2): a crash behind any prefix of init's own mutations leaves a file that reopens as an empty log and accepts the first append",
+        "raft index file (s04_3): creation, hard-state save, last-applied write, second save of another record length; a crash behind any prefix of the file's mutations: the file reopens and "
+        "reports the last acknowledged (term, vote, last-applied) or the one in flight",
     ],
-    "outside": "the index (catalogue) file and snapshot files, and every order between different actors' files (catalogue update vs. new log file, snapshot completion): those sequences "
+    "outside": "snapshot files, and every order between different actors' files (catalogue update vs. new log file, snapshot completion): those sequences "
                "exist only as actor message schedules",
     "explanation": "bounded symbolic execution of the log file code with a symbolic crash point over the journal of file mutations",
 }
